@@ -54,7 +54,7 @@ func genNDSpoof(prop string, seed uint64, tier string) Scenario {
 			// RA: N selects the option list, P flags/preference, X lifetimes, S the router (0 main, 1 second)
 			sc.Ops = append(sc.Ops, Op{K: "ra", T: 20, N: r.n(64), P: r.n(16), X: r.n(5), S: r.pick(0, 0, 0, 1), D: r.weighted([]int{2, 2, 3, 3, 3, 3, 1})})
 		case 3:
-			sc.Ops = append(sc.Ops, Op{K: "ns", T: 10 + m, M: m, I: r.n(3), D: r.n(6)})
+			sc.Ops = append(sc.Ops, Op{K: "ns", T: 10 + m, M: m, I: r.n(3), D: r.n(6), S: r.pick(0, 0, 1)})
 		}
 	}
 	return sc
@@ -251,7 +251,12 @@ func runNDSpoof(e *exec) {
 				tgt = netip.MustParseAddr("2001:db8::77")
 			}
 			dst := fb.SolicitedNode(tgt)
-			frame := fb.Eth(fb.MulticastMAC6(dst), targetMAC(o.M), 0x86dd, fb.IPv6(src, dst, 58, 255, fb.ICMP6(src, dst, 135, 0, fb.NS(tgt, []fb.NDOption{fb.OptSourceLLA(targetMAC(o.M))}))))
+			dmac := fb.MulticastMAC6(dst)
+			if o.S == 1 {
+				// a unicast solicitation (reachability probe): to the target itself, at another host's MAC
+				dst, dmac = tgt, targetMAC(o.M+1)
+			}
+			frame := fb.Eth(dmac, targetMAC(o.M), 0x86dd, fb.IPv6(src, dst, 58, 255, fb.ICMP6(src, dst, 135, 0, fb.NS(tgt, []fb.NDOption{fb.OptSourceLLA(targetMAC(o.M))}))))
 			a.inject(i, "ns", 0, frame)
 		}
 	}
